@@ -5,7 +5,27 @@ package sched
 
 import (
 	"fmt"
+	"os"
 )
+
+var dbg = os.Getenv("SCHED_DEBUG") != ""
+var dbgRing []string
+
+func dlog(f string, a ...interface{}) {
+	if dbg {
+		dbgRing = append(dbgRing, fmt.Sprintf(f, a...))
+		if len(dbgRing) > 60 {
+			dbgRing = dbgRing[1:]
+		}
+	}
+}
+
+// DebugDump prints the last scheduler events (SCHED_DEBUG=1).
+func DebugDump() {
+	for _, l := range dbgRing {
+		fmt.Fprintln(os.Stderr, l)
+	}
+}
 
 // Point is one recorded choice point.
 type Point struct {
@@ -16,20 +36,21 @@ type Point struct {
 }
 
 type thread struct {
-	id   int
-	wake chan struct{}
-	done bool
+	id      int
+	wake    chan struct{}
+	done    bool
+	blocked bool // inside Block: not enabled at this choice
 }
 
 // Run is one controlled execution.
 type Run struct {
-	prefix  []int
-	Points  []Point
-	threads []*thread
-	cur     int
-	fin     chan struct{}
-	Failure string // harness failure (out-of-range choice while replaying a prefix)
-	active  bool
+	prefix    []int
+	Points    []Point
+	threads   []*thread
+	cur       int
+	fin       chan struct{}
+	Failure   string // harness failure (out-of-range choice while replaying a prefix)
+	active    bool
 	MaxPoints int
 }
 
@@ -40,11 +61,33 @@ func (r *Run) Yield(label string) {
 	}
 	me := r.cur
 	next := r.choose(me, true, label)
+	dlog("yield me=%d next=%d %s", me, next, label)
 	if next != me {
 		r.cur = next
 		r.threads[next].wake <- struct{}{}
 		<-r.threads[me].wake
 	}
+}
+
+// Block is called by the running thread when it cannot proceed (a lock is held by another thread): the thread is
+// not enabled at this point, another one must run. With no other thread left it is a deadlock.
+func (r *Run) Block(label string) {
+	if !r.active {
+		return
+	}
+	me := r.cur
+	r.threads[me].blocked = true // only for this choice: once another thread ran, the lock may be free again
+	if len(r.enabled(me, false)) == 0 {
+		r.threads[me].blocked = false
+		r.Failure = "deadlock: the only thread left waits for a lock (" + label + ")"
+		panic("sched: deadlock at " + label)
+	}
+	next := r.choose(me, false, label)
+	r.threads[me].blocked = false
+	dlog("block me=%d next=%d %s", me, next, label)
+	r.cur = next
+	r.threads[next].wake <- struct{}{}
+	<-r.threads[me].wake
 }
 
 func (r *Run) enabled(running int, runningEnabled bool) []int {
@@ -53,7 +96,7 @@ func (r *Run) enabled(running int, runningEnabled bool) []int {
 		e = append(e, running)
 	}
 	for _, t := range r.threads {
-		if !t.done && !(runningEnabled && t.id == running) {
+		if !t.done && !t.blocked && !(runningEnabled && t.id == running) {
 			e = append(e, t.id)
 		}
 	}
@@ -102,6 +145,7 @@ func Execute(prefix []int, bodies []func(r *Run)) *Run {
 				return
 			}
 			next := r.choose(i, false, "exit")
+			dlog("exit i=%d next=%d", i, next)
 			r.cur = next
 			r.threads[next].wake <- struct{}{}
 		}()
